@@ -711,7 +711,16 @@ def families(tier, seed):
     def d_syme(c):
         return {"n": c[0], "as": "Cn-string" if c[1] else "int", "box": c[2], "volume": "delta set"}
 
-    return [
+    from ..engine import with_array_layouts
+    _codes = Family("rot90-codes", code_cases, exec_rot_codes, describe=d_codes)
+    _win = Family("window", win_cases, exec_window, describe=d_win)
+    _one = Family("place-one", one_cases, exec_place_one, describe=d_one)
+    layout_fams = [
+        with_array_layouts(_codes, expect=("codes-permuted-exactly",)),
+        with_array_layouts(_win, select=lambda c: tuple(c[2]) == (4, 4, 4), expect=("window-voxels", "outside-is-volume-mean")),
+        with_array_layouts(_one, select=lambda c: tuple(c[3]) == (0.0, 0.0, 0.0) and c[2] == "geom1", expect=("stamped-voxel-set",)),
+    ]
+    return layout_fams + [
         Family("rot90-delta", delta_cases, exec_rot_delta, describe=d_delta, expect=("delta-lands-at-Rv", "delta-elsewhere-zero")),
         Family("rot90-codes", code_cases, exec_rot_codes, describe=d_codes, expect=("codes-permuted-exactly", "right-angle-inverse-restores")),
         Family("link-motl-map", link_cases, exec_link, describe=d_link,
